@@ -131,18 +131,47 @@ impl ComparisonStreamMerger {
         let column_views: Vec<&[ScalarValue]> = columns.iter().map(|c| c.as_slice()).collect();
         let column_names: Vec<String> = schema.columns().iter().map(|c| c.name.clone()).collect();
 
+        // Each sub-query stream carries the final table of its AggregateStreamMerger (one column
+        // per metric: `avg_<field>`, `count_unique_<field>`), not the shards' partial layout
+        // (`avg_<field>_sum` / `_count`, `count_unique_<field>_values`): only the group key is
+        // parsed like a partial row, AVG and COUNT UNIQUE are taken as finalized.
+        let key_plan = AggregatePlan {
+            ops: Vec::new(),
+            ..aggregate_plan.clone()
+        };
+        let metric_start = usize::from(aggregate_plan.time_bucket.is_some())
+            + aggregate_plan.group_by.as_ref().map_or(0, |g| g.len());
+
         for row_idx in 0..batch.len() {
             match AggregateStreamMerger::parse_aggregate_row(
                 &column_views,
                 &column_names,
                 row_idx,
-                aggregate_plan,
+                &key_plan,
             ) {
-                Ok((group_key, states)) => {
-                    // Convert AggStates to ScalarValues (final metric values)
+                Ok((group_key, _)) => {
+                    // Convert metric columns to ScalarValues (final metric values)
                     let mut metric_values = Vec::new();
-                    for (spec, state) in aggregate_plan.ops.iter().zip(states.iter()) {
-                        let value = AggregateStreamMerger::agg_state_to_scalar(state, spec)?;
+                    for (i, spec) in aggregate_plan.ops.iter().enumerate() {
+                        let value = column_views
+                            .get(metric_start + i)
+                            .and_then(|column| column.get(row_idx))
+                            .ok_or_else(|| {
+                                format!(
+                                    "Failed to parse row {}: missing metric column for spec {:?}",
+                                    row_idx, spec
+                                )
+                            })?;
+                        let value = match spec {
+                            AggregateOpSpec::Avg { .. } | AggregateOpSpec::CountUnique { .. } => {
+                                value.clone()
+                            }
+                            _ => {
+                                let state =
+                                    AggregateStreamMerger::scalar_to_agg_state(value, spec)?;
+                                AggregateStreamMerger::agg_state_to_scalar(&state, spec)?
+                            }
+                        };
                         metric_values.push(value);
                     }
                     rows.push((group_key, metric_values));
